@@ -214,7 +214,69 @@ def handleText (toks : List String) : Option String :=
     if 1 ≤ n ∧ n ≤ 4 then some (vinShow (vecInput t n (IStream.ofString bs))) else none
   | _ => none
 
+/-! ### UTF-8 part -/
+
+def whexOf (l : List Nat) : String :=
+  if l.isEmpty then "-" else String.join (l.map fun c => String.join ((List.range 4).reverse.map fun i => hexByte (c / 256 ^ i % 256)))
+
+def group4 : List Nat → Option (List Nat)
+  | [] => some []
+  | a :: b :: c :: d :: r => (group4 r).map (fun t => ((((a * 256 + b) * 256 + c) * 256 + d) :: t))
+  | _ => none
+
+def parseWhex (s : String) : Option (List Nat) := (parseHex s).bind group4
+
+def resName : CvtResult → String
+  | .ok => "ok" | .part => "partial" | .error => "error" | .noconv => "noconv"
+
+def optHex (f : List Nat → String) (none_ : String) : Except Fault (Option (List Nat)) → String
+  | .ok (some l) => "some " ++ f l
+  | .ok none => none_
+  | .error e => "fault:" ++ e.name
+
+def nwLine (ws : List Nat) : String :=
+  let n := narrowLocale ws
+  let w := match n with
+    | .ok (some bs) => optHex whexOf "exc" (widenLocale bs)
+    | _ => "-"
+  s!"n={optHex hexOf "none" n} w={w}"
+
+def nwsDigest (lo n : Nat) : String :=
+  let h := (List.range n).foldl (fun h (i : Nat) => fnv h (nwLine [lo + i])) fnvInit
+  "D " ++ hex64 h
+
+def handleUtf (toks : List String) : Option String :=
+  match toks with
+  | ["facet"] => some s!"{utf8In.maxLength} 0"
+  | ["cvt", "out", w, "-", inp] => do
+    let w ← w.toNat?; let inp ← parseWhex inp
+    let r := utf8Out.step () inp w
+    some s!"{resName r.res} consumed={r.consumed} out={hexOf r.produced} init={if r.res == .error then "-" else "1"}"
+  | ["cvt", "in", w, pend, inp] => do
+    let w ← w.toNat?; let pend ← parseHex pend; let inp ← parseHex inp
+    -- the state can only hold a proper prefix of a sequence
+    if pend.isEmpty ∨ classify pend == .pref then
+      let r := utf8In.step pend inp w
+      some s!"{resName r.res} consumed={r.consumed} out={whexOf r.produced} init={if r.res == .error then "-" else b01 (utf8In.isInit r.state)}"
+    else none
+  | ["narrow", inp] => do
+    let inp ← parseWhex inp
+    some (optHex hexOf "none" (narrowLocale inp))
+  | ["widen", inp] => do
+    let inp ← parseHex inp
+    some (optHex whexOf "exc" (widenLocale inp))
+  | ["nw", inp] => do
+    let inp ← parseWhex inp
+    some (nwLine inp)
+  | ["nws", lo, n] => do
+    let lo ← lo.toNat?; let n ← n.toNat?
+    if n = 0 ∨ lo + n > 2 ^ 32 then none else some (nwsDigest lo n)
+  | _ => none
+
 def handle (toks : List String) : String :=
+  match handleUtf toks with
+  | some r => r
+  | none =>
   match handleBin toks with
   | some r => r
   | none =>
